@@ -27,8 +27,13 @@ class Oracle:
         return c
 
 
+SHARD = None     # (work queue of decision prefixes, shared count of outstanding prefixes) when a harness is explored by several processes
+
+
 def enumerate_paths(run, max_paths=20000):
     """run(oracle) is executed once per decision vector.  Returns number of paths."""
+    if SHARD is not None:
+        return _enumerate_shared(run, max_paths)
     stack = [[]]
     n = 0
     while stack:
@@ -42,6 +47,41 @@ def enumerate_paths(run, max_paths=20000):
             _, k, _ = o.trail[i]
             for alt in range(1, k):
                 stack.append([c for c, _, _ in o.trail[:i]] + [alt])
+    return n
+
+
+def _enumerate_shared(run, max_paths):
+    """the same depth-first enumeration with the stack of pending decision prefixes shared between forked workers:
+    every prefix is explored by exactly one worker; the exploration ends when no prefix is pending anywhere"""
+    import queue as _q
+    q, outstanding = SHARD
+    n = 0
+    while True:
+        try:
+            prefix = q.get(timeout=0.1)
+        except _q.Empty:
+            if outstanding.value == 0:
+                break
+            continue
+        o = Oracle(prefix)
+        n += 1
+        try:
+            if n > max_paths:
+                raise O.OutsideSubset(f"more than {max_paths} paths in one worker")
+            run(o)
+            children = []
+            for i in range(len(prefix), len(o.trail)):
+                _, k, _ = o.trail[i]
+                for alt in range(1, k):
+                    children.append([c for c, _, _ in o.trail[:i]] + [alt])
+        except BaseException:
+            with outstanding.get_lock():
+                outstanding.value -= 1
+            raise
+        with outstanding.get_lock():
+            outstanding.value += len(children) - 1
+        for c in children:
+            q.put(c)
     return n
 
 
@@ -409,7 +449,11 @@ class St:
         else:
             k = fresh("card", I)
             self.assume(k >= 0)
-            self.assume((k == 0) == (dom == z3.K(V, z3.BoolVal(False))))
+            # cardinality 0 <=> no member, stated pointwise (a witness when non-empty, a universally quantified fact when
+            # empty) rather than as an extensional equality with the empty set, which the solvers decide poorly for lambdas
+            x = z3.Const("x!empty", V)
+            self.assume(z3.Implies(k == 0, z3.ForAll([x], z3.Not(z3.Select(dom, x)))))
+            self.assume(z3.Implies(k > 0, z3.Select(dom, fresh("member", V))))
             self.h.slen = z3.Store(self.h.slen, rid, k)
         return vref(rid)
 
